@@ -1,4 +1,4 @@
-import AikenVerif.Lemmas.CekCost
+import AikenVerif.Lemmas.CekThreshold
 import AikenVerif.Props.C03
 /-!
 # C05 — execution budgets are exact: property theorems
@@ -125,6 +125,140 @@ theorem success_implies_cost_le_budget (cfg : Config) (fuel : Nat) (budget : ExB
   simp only [ExBudget.sub] at h2 h3
   constructor <;> omega
 
+theorem ledger_nonneg (cm : CostModel) (sem : Sem) (hn : NonnegCosts cm sem) : ∀ (n : Nat) (s : State),
+    ExBudget.le .zero (ledger cm sem n s) := by
+  intro n
+  induction n with
+  | zero => intro s; simp [ledger, ExBudget.le, ExBudget.zero]
+  | succ n ih =>
+    intro s
+    simp only [ledger]
+    cases Spec.step sem (denotation sem) s with
+    | next s' =>
+      have h1 := stepCharge_nonneg cm sem hn s
+      have h2 := ih s'
+      simp only [ExBudget.le, ExBudget.add, ExBudget.zero] at *
+      constructor <;> omega
+    | done _ => simp [ExBudget.le, ExBudget.zero]
+    | fail => simp [ExBudget.le, ExBudget.zero]
+    | other => simp [ExBudget.le, ExBudget.zero]
+
+/-- with non-negative prices, a run whose effective budget covers the ledger cost of the
+specification's (successful) run never stops for budget reasons -/
+theorem runFrom_no_oob (cfg : Config) (hn : NonnegCosts cfg.costs cfg.sem) : ∀ (fuel : Nat) (a : Acct) (s : State) (t : NTerm),
+    s.wf = true → AcctWF a → AcctInv cfg.costs a →
+    Spec.runFrom cfg.sem (denotation cfg.sem) fuel s = .done t →
+    ExBudget.le (ledger cfg.costs cfg.sem fuel s) (eff cfg.costs a) →
+    runFrom cfg fuel a s ≠ .oob := by
+  intro fuel
+  induction fuel with
+  | zero => intro a s t _ _ _ h; simp [Spec.runFrom] at h
+  | succ n ih =>
+    intro a s t hs hw hi hspec hle
+    have hg := step_good cfg a s hs hw
+    have hc := step_charged cfg a s hi
+    simp only [Spec.runFrom] at hspec
+    simp only [ledger] at hle
+    simp only [runFrom]
+    cases hsp : Spec.step cfg.sem (denotation cfg.sem) s with
+    | next s1 =>
+      rw [hsp] at hspec hle
+      simp only at hspec hle
+      have hrest := ledger_nonneg cfg.costs cfg.sem hn n s1
+      have hstep : step cfg a s ≠ .oob := by
+        apply step_no_oob cfg hn a s hi
+        simp only [ExBudget.le, ExBudget.add, ExBudget.zero] at hle hrest ⊢
+        constructor <;> omega
+      cases hst : step cfg a s with
+      | next a1 s1' =>
+        rw [hst] at hg hc
+        simp only [StepGood] at hg
+        simp only [StepCharged] at hc
+        rw [hsp] at hg
+        have : s1' = s1 := by have := hg.1; cases this; rfl
+        subst this
+        simp only
+        apply ih a1 s1' t hg.2.1 hg.2.2 hc.2 hspec
+        rw [hc.1]
+        simp only [ExBudget.le, ExBudget.add, ExBudget.sub] at hle ⊢
+        constructor <;> omega
+      | done a1 t1 => intro h; cases h
+      | fail => intro h; cases h
+      | oob => exact absurd hst hstep
+      | panic => intro h; cases h
+      | unmodelled => intro h; cases h
+    | done t1 =>
+      rw [hsp] at hle
+      have hstep : step cfg a s ≠ .oob := by
+        apply step_no_oob cfg hn a s hi
+        have hz : stepCharge cfg.costs cfg.sem s = .zero := by
+          obtain ⟨v, rfl⟩ := spec_step_done cfg.sem (denotation cfg.sem) s t1 hsp
+          rfl
+        rw [hz]; exact hle
+      cases hst : step cfg a s with
+      | next a1 s1' => rw [hst] at hg; simp only [StepGood] at hg; rw [hsp] at hg; cases hg.1
+      | done a1 t1' => intro h; cases h
+      | fail => intro h; cases h
+      | oob => exact absurd hst hstep
+      | panic => intro h; cases h
+      | unmodelled => intro h; cases h
+    | fail => rw [hsp] at hspec; cases hspec
+    | other => rw [hsp] at hspec; cases hspec
+
+/-- **C05 (budget threshold, ⇐)**: with non-negative prices, if the program's ledger cost fits the
+budget in both dimensions then evaluation never stops for budget reasons (and, the specification's
+run being successful, never reports a failure either) — whatever the batching interval. Together
+with `success_implies_cost_le_budget` this is "succeeds iff cost ≤ budget". -/
+theorem budget_suffices (cfg : Config) (hn : NonnegCosts cfg.costs cfg.sem) (fuel : Nat) (budget : ExBudget)
+    (t r : NTerm) (hstart : ExBudget.le .zero (stepCostOf cfg.costs .startUp))
+    (hspec : Spec.run cfg.sem (denotation cfg.sem) fuel t = .done r)
+    (hle : ExBudget.le (programCost cfg.costs cfg.sem fuel t) budget) :
+    run cfg fuel budget t ≠ .oob ∧ run cfg fuel budget t ≠ .fail := by
+  have hfail : run cfg fuel budget t ≠ .fail := by
+    have := C03.cek_refines_spec cfg fuel budget t
+    intro h
+    rw [h] at this
+    simp only at this
+    rw [hspec] at this
+    cases this
+  refine ⟨?_, hfail⟩
+  unfold run
+  cases hsu : cfg.costs.machineCost .startUp with
+  | none => intro h; cases h
+  | some c =>
+    simp only
+    have hc : stepCostOf cfg.costs .startUp = c := by simp [stepCostOf, hsu]
+    have hl := ledger_nonneg cfg.costs cfg.sem hn fuel (.compute [] [] t)
+    simp only [programCost, hc, ExBudget.le, ExBudget.add, ExBudget.zero] at hle hstart hl
+    cases hsp : spendBudget ⟨budget, initCounts⟩ c with
+    | ok a =>
+      simp only
+      obtain ⟨hb, hcn, hnn⟩ := spendBudget_ok _ a c hsp
+      simp only at hb hcn
+      have hz : ∀ j, a.counts.getD j 0 = 0 := by
+        intro j; rw [hcn]
+        have : j = 0 ∨ j = 1 ∨ j = 2 ∨ j = 3 ∨ j = 4 ∨ j = 5 ∨ j = 6 ∨ j = 7 ∨ j = 8 ∨ j = 9 ∨ 10 ≤ j := by omega
+        rcases this with h | h | h | h | h | h | h | h | h | h | h <;> try (subst h; rfl)
+        rw [List.getD_eq_getElem?_getD, List.getElem?_eq_none (by simp [initCounts, unbudgetedLen]; omega)]; rfl
+      have hp : pending cfg.costs a = .zero := pending_of_zero cfg.costs a hz
+      have hi : AcctInv cfg.costs a := ⟨by simp [hcn, initCounts, unbudgetedLen], fun _ => hp, hnn⟩
+      have hw : AcctWF a := by simp [AcctWF, hcn, initCounts]
+      apply runFrom_no_oob cfg hn fuel a (.compute [] [] t) r (by simp [State.wf, Value.wfList]) hw hi hspec
+      simp only [ExBudget.le, eff, hp, hb, ExBudget.sub, ExBudget.zero]
+      constructor <;> omega
+    | oob =>
+      exfalso
+      unfold spendBudget at hsp
+      simp only at hsp
+      split at hsp
+      · rename_i hneg
+        simp only [Bool.or_eq_true, decide_eq_true_eq] at hneg
+        omega
+      · cases hsp
+    | fail => intro h; cases h
+    | panic => intro h; cases h
+    | unmodelled => intro h; cases h
+
 /-- the generated step-kind tables are coherent: counter `i` of `unbudgeted_steps` is priced with the
 cost of the step kind whose tag is `i`, and every term former is charged as a non-start-up kind -/
 theorem machine_costs_table :
@@ -144,3 +278,4 @@ example :
   exact ⟨⟨_, rfl, rfl⟩, ⟨_, rfl, rfl⟩⟩
 
 end AikenVerif.C05
+
